@@ -30,7 +30,7 @@ ASSUMPTIONS = [
     '(which only in-memory sources have), same line/column',
     'PYTHONUTF8=1: files are opened as UTF-8 (the library opens paths with the default encoding)',
 ]
-SOURCES = ['str', 'path', 'textfile', 'binfile', 'stringio', 'bytesio']
+SOURCES = ['str', 'path', 'textfile', 'binfile', 'stringio', 'bytesio', 'bytesio-utf16', 'binfile-utf16', 'bytesio-utf8sig']
 SINKS = ['filename', 'path', 'textfile', 'stringio']
 
 
@@ -85,8 +85,13 @@ def load_outcome(load, kind, text, name):
             return ('ok', load(text))
         if kind == 'stringio':
             return ('ok', load(io.StringIO(text)))
-        data = text.encode('utf-8')
-        if kind == 'bytesio':
+        if kind in ('bytesio-utf16', 'binfile-utf16'):
+            data = text.encode('utf-16')          # with byte-order mark, which is how YAML announces UTF-16
+        elif kind == 'bytesio-utf8sig':
+            data = text.encode('utf-8-sig')
+        else:
+            data = text.encode('utf-8')
+        if kind.startswith('bytesio'):
             return ('ok', load(io.BytesIO(data)))
         with open(p, 'wb') as f:
             f.write(data)
@@ -133,6 +138,8 @@ def run_load(unit, tier, res):
         res.nontrivial += 1
         res.hist['load:' + base[0]] += 1
         for src in SOURCES[1:]:
+            if src in ('bytesio-utf16', 'binfile-utf16', 'bytesio-utf8sig') and text.startswith('\ufeff'):
+                continue                              # the text has a byte-order mark of its own already
             res.transitions += 1
             res.traces += 1
             o = load_outcome(case.load, src, text, 'doc.yaml')
@@ -158,8 +165,9 @@ def dump_variants(dump, dumpj):
 def write_to(fn, v, sink, name):
     d = tmpdir()
     p = os.path.join(d, name)
-    if os.path.exists(p):
-        os.remove(p)
+    # the target already exists and is longer than anything we dump: a sink has to replace it
+    with open(p, 'w', encoding='utf-8') as f:
+        f.write('# old content\n' + 'old: line that must disappear\n' * 400)
     if sink == 'stringio':
         s = io.StringIO()
         fn(v, s)
